@@ -53,6 +53,17 @@ def lookup(ex, name):
             for i, ch in enumerate(lit): mem.store(st, I8, iv(8, ord(ch)), ('p', p[1], p[2] + i))
             mem.store(st, I8, iv(8, 0), ('p', p[1], p[2] + n)); mem.store(st, I64, iv(64, n), ('p', this[1], this[2] + 8))
         return f
+    if name == PFX + '7reserveEm':
+        def f(st, a):
+            this = a[0]; want = ex.conc(st, a[1], 'string capacity'); p, n, cap, local = _get(ex, st, this)
+            if want <= cap: return
+            chars = _chars(ex, st, p, n)
+            oid = st.alloc(want + 1, 'heap%d' % st.next_obj); np_ = ('p', oid, 0)
+            if not local and p[0] == 'p' and p[1] is not None: st.wobj(p[1]).freed = True
+            mem.store(st, PTR(I8), np_, ('p', this[1], this[2])); mem.store(st, I64, iv(64, want), ('p', this[1], this[2] + 16))
+            for i, c in enumerate(chars): mem.store(st, I8, c, ('p', oid, i))
+            mem.store(st, I8, iv(8, 0), ('p', oid, n))
+        return f
     if name == PFX + '14_M_replace_auxEmmmc':
         def f(st, a):
             p, n, cap, local = _get(ex, st, a[0]); pos = ex.conc(st, a[1]); n1 = ex.conc(st, a[2]); n2 = ex.conc(st, a[3])
